@@ -1,7 +1,9 @@
 """C15 — point-defect insertion (atomman/defect/point.py): vacancy, interstitial, substitutional,
 dumbbell and the dispatcher `point`.
 
-Tie: correspondence.  Short histories of insertions are run on the real atomman (rebuilt from /repo's
+Tie: translator + correspondence.  `translate()` compiles the five functions of point.py (ast, statement by statement) into
+lean/Atomman/Generated/PointSource.lean over the source-level primitives of the model; Proofs/C15_Source.lean proves each
+generated function equal to the hand model.  Short histories of insertions are run on the real atomman (rebuilt from /repo's
 working tree) and on the compiled Lean model driver (`drv_c15`, stateful: it holds the current system)
 with the same exact rational inputs; replies (full system dumps or the refusal class) are compared.
 Search: the clauses of the property are evaluated on the real code with an independent Fraction oracle.
@@ -115,9 +117,23 @@ ASSUMPTIONS = [
     'kwargs values are given in the dtype and per-atom shape of the property, in any container form (numpy casting of the '
     'assignment view[prop][-1] = value is not modelled); strings travel as integer codes (0 = the empty string)',
     'a (1,3) position is taken like a (3,) one (what the code does; the documentation says "array-like")',
+    'statement pins of the translator (call shapes matched exactly on the AST and mapped to a model primitive; their SEMANTICS is '
+    'tied by the correspondence run): np.where(np.isclose(np.linalg.norm(np.atleast_2d(system.dvect(pos, system.atoms.pos)), '
+    'axis=1), 0.0, atol=atol)) -> siteMatches; System(box=deepcopy(system.box), pbc=deepcopy(system.pbc), '
+    'atoms=deepcopy(system.atoms[index]), symbols=system.symbols, masses=system.masses) -> sliced; np.asarray(x, dtype=float) -> x; '
+    'np.dot(v, system.box.vects) -> M3.vecMul; box.position_relative_to_cartesian -> Box.relToCart; return d_system -> fixSym '
+    '(what the caller reads through the padding symbols / masses getters); try: index.pop(ptd_id) except: raise -> its body',
+    'the per-property loop runs each branch once per property; that its iterations commute is proved for the model primitives '
+    '(loop_branches_commute); that atoms_prop() lists every property exactly once is numpy/dict behaviour',
+    'gen_dumbbell_eq_model / gen_point_eq_model hold for systems whose atom types are all >= 1 (ValidTypes): Atoms.natypes refuses '
+    'anything else, so no System can violate it',
+    'sqrt is exact where the harness compares exactly; with an exact distance r the model test on squares IS numpy isclose formula '
+    '(within_iff_isclose, any rtol)',
 ]
 TRUSTED = ['numpy indexing/assignment in the implementation run', 'shared Lean model of dvect_c (Atomman/Dvect.lean, tied to the '
-           'Cython source by C02\'s correspondence and again here through site selection)']
+           'Cython source by C02\'s correspondence and again here through site selection)',
+           'the translator of this module (python ast -> Lean text); a mistranslation would have to be matched by the same mistake '
+           'in the hand model to go unnoticed, and the correspondence run compares the hand model with the real code']
 
 RESERVED = ('atype', 'pos', 'old_id')
 DEFAULT_ATOL = 0.01
@@ -2391,6 +2407,8 @@ def correspond(ctx):
             hist.append(op)
             out, loose = _corr_op(ctx, system, desc, hist, op, it, sline, lines, checks, dist)
             if out[0] == 'ok':
+                if not _safe_dump(out[1]).startswith('ok '):
+                    break              # an unusable result (reported by the comparison): the history ends here
                 system = out[1]
                 if loose:
                     # positions computed in floating point from inexact box-relative input: hand the
@@ -2625,6 +2643,8 @@ def _run_history(ctx, desc, ops, label, gen=None, nops=0, rng=None, same_object=
                         break
         else:
             prov = [None] * result.natoms      # exempt / misjudged step: provenance unknown from here on
+        if not _safe_dump(result).startswith('ok '):
+            break                              # an unusable result (already reported): nothing can follow it
         system = result
     return system
 
@@ -3191,10 +3211,16 @@ MANIFEST = {
             'and per-type masses kept and padded. Tied to the code by a differential run of insertion histories and of '
             'same-object sequences with in-place edits on random systems (cells of every shape and setting, scaled by 2^k, '
             'every argument form, other working units); the clauses - including untouched input, fresh outputs, repeatability - '
-            'are evaluated on the real code by an independent Fraction oracle.',
+            'are evaluated on the real code by an independent Fraction oracle. Round 6: every function of point.py is regenerated '
+            'from the current source (signatures, defaults, branch conditions and their order, index-list operations, the '
+            'per-property loop, kwargs routing, the dispatcher) into Generated/PointSource.lean and proved equal to the model; '
+            'end-to-end theorems about the functions as written (every accepted point(...) call is one of the four model '
+            'insertions and satisfies every clause), every refusal as an iff, atom count and cell after any history, keywords '
+            '(unknown key ignored, order irrelevant), index objects of non-integer type refused by class.',
     'note': 'Trusted: Lean kernel + propext/Classical.choice/Quot.sound; the correspondence harness; numpy indexing and '
             'assignment. Images beyond the adjacent cells are outside dvect\'s candidate set (refused by model and code alike, '
             'also where such an image is the nearest one in a strongly sheared cell). '
             'numpy casting/broadcasting of kwargs values, interstitial without pos and dumbbell without db_vect are not modelled.',
-    'technique': 'Lean 4 theorems over a hand-written model + differential correspondence + clause oracle on the real code',
+    'technique': 'Lean 4 theorems over a model proved equal to Lean definitions regenerated from point.py on every check (ast '
+                 'translator, gen_..._eq_model) + differential correspondence + clause oracle on the real code',
 }
